@@ -89,7 +89,14 @@ def check_index_contracts(res: Result, repo):
     # ---- valid_index(i, n)  <=>  i is not None and -n <= i < n
     vi = repo.func("hexital.utils.indexing", "valid_index")
     fa = analyse_function(repo, vi)
-    for p in fa.paths:
+    from ..rules_vn import path_cases
+
+    class _P:  # a guarded case presented like a path
+        def __init__(self, facts, ret, node):
+            self.ret, self.node = ret, node
+            self.state = type("S", (), {"facts": list(facts)})()
+
+    for p in [_P(f, r, pp.node) for f, r, pp in path_cases(fa.paths)]:
         facts = tuple(p.state.facts)
         none_path = ("raw-none",) in facts
         lo, hi = RAW + L, L - ONE - RAW
@@ -136,7 +143,7 @@ def check_index_contracts(res: Result, repo):
     # ---- absindex
     ab = repo.func("hexital.utils.indexing", "absindex")
     fa = analyse_function(repo, ab)
-    for p in fa.paths:
+    for p in [_P(f, r, pp.node) for f, r, pp in path_cases(fa.paths)]:
         facts = tuple(p.state.facts)
         if ("raw-none",) in facts:
             ok = isinstance(p.ret, Num) and p.ret.f == L - ONE
@@ -146,6 +153,9 @@ def check_index_contracts(res: Result, repo):
             (res.ok(rule, {"helper": "absindex", "path": "invalid -> None"}) if ok else res.fail(rule, finding("C20", rule, ab, p.node, "absindex returns None on a path that is not the invalid-index path")))
         elif isinstance(p.ret, Num):
             neg = any(isinstance(c, tuple) and c[0] == "cmp" and c[1] == "<" and c[2] == RAW for c in facts)
+            if not neg and not prove_ge0(RAW, facts, []) and not any(isinstance(c, tuple) and c[0] == "cmp" and c[1] == "<=" and c[2] == -RAW for c in facts):
+                # neither sign of the index is known on this case: the result must be correct for both (only possible when n == 0)
+                pass
             want = L + RAW if neg else RAW
             if p.ret.f == want:
                 res.ok(rule, {"helper": "absindex", "path": "i<0 -> n+i" if neg else "i>=0 -> i"}, nontrivial=f"absindex:{neg}")
